@@ -15,6 +15,7 @@
 package eventlog
 
 import (
+	"bytes"
 	"encoding/binary"
 	"fmt"
 	"io"
@@ -118,25 +119,48 @@ func (d *Uint32SizedArrayT[T]) Unmarshal(r io.Reader) error {
 		d.Array = nil
 		return nil
 	}
-	d.Array = make([]T, size)
-	for i := range d.Array {
-		d.Array[i] = d.Array[i].Create().(T)
-		if err := d.Array[i].Unmarshal(r); err != nil {
+	// The declared count is untrusted: grow the array as elements are actually decoded.
+	d.Array = nil
+	for i := uint32(0); i < size; i++ {
+		var elem T
+		elem = elem.Create().(T)
+		if err := elem.Unmarshal(r); err != nil {
 			return fmt.Errorf("failed to unmarshal %T element %d: %v", []T{}, i, err)
 		}
+		d.Array = append(d.Array, elem)
 	}
 	return nil
+}
+
+// readExactly reads exactly size bytes from r. The declared size comes from untrusted input, so
+// memory grows with the data actually delivered instead of being allocated up front.
+func readExactly(r io.Reader, size uint64) ([]byte, error) {
+	if size == 0 {
+		return nil, nil
+	}
+	var buf bytes.Buffer
+	if n, err := io.CopyN(&buf, r, int64(size)); err != nil {
+		// The partial data is returned for error reporting only.
+		return buf.Bytes(), fmt.Errorf("declared size %d but only %d bytes follow: %w", size, n, err)
+	}
+	return buf.Bytes(), nil
 }
 
 func readSizedArray(r io.Reader, size any, data *[]byte) error {
 	if err := binary.Read(r, binary.LittleEndian, size); err != nil {
 		return fmt.Errorf("failed to read array size as %T: %w", size, err)
 	}
-	result, err := makeSized[byte](size)
-	if err != nil {
-		return err
+	var declared uint64
+	switch s := size.(type) {
+	case *byte:
+		declared = uint64(*s)
+	case *uint32:
+		declared = uint64(*s)
+	default:
+		return fmt.Errorf("unsupported array size type %T", size)
 	}
-	if _, err := r.Read(result); err != nil {
+	result, err := readExactly(r, declared)
+	if err != nil {
 		return err
 	}
 	*data = result
